@@ -47,7 +47,10 @@ SHARD_TIMEOUT = {"quick": 1500, "thorough": 7200}
 def shards(tier, seed):
     k = 16
     n = 3 if tier == "quick" else 30
-    return [{"shard": i, "rounds": n} for i in range(k)]
+    out = [{"shard": i, "rounds": n} for i in range(k)]
+    out.append({"shard": k, "rounds": 0, "repo_tests": ["tests/unit/test_correction.py", "tests/unit/test_affine.py", "tests/unit/test_coordinate_transformation.py",
+                                                       "tests/unit/test_generalizedperspective.py", "tests/unit/test_image.py"]})
+    return out
 
 
 def checker_photo(rng, darsia, shape, dtype):
@@ -76,6 +79,12 @@ def checker_photo(rng, darsia, shape, dtype):
     else:
         arr = photo.astype(dtype)
     return arr, roi, ref
+
+
+def shutil_rmtree(path):
+    import shutil
+
+    shutil.rmtree(path, ignore_errors=True)
 
 
 def run_shard(spec, R):
@@ -241,6 +250,15 @@ def run_shard(spec, R):
 
     import contextlib
     import io
+
+    if spec.get("repo_tests"):
+        # the repository's tests (real photographs, fitted corrections) under the same monitor
+        from vf.ambient import run_repo_tests
+
+        current.update({"label": "repo-tests", "neutral": False, "kmeans": True, "neutral_as_float": False})
+        run_repo_tests(R, spec["repo_tests"])
+        shutil_rmtree(tmpdir)
+        return
 
     for rnd in range(spec["rounds"]):
         rng = rng_for(spec["seed"], "C10", spec["shard"], rnd)
